@@ -107,6 +107,11 @@ HAND = [
     ('FaultRecovered', 'func FaultRecovered(a int, c1, c2, p1 bool, n int, s []int) (r int) {\n\tdefer func() {\n\t\tif e := recover(); e != nil {\n\t\t\ttrace(70)\n\t\t\tr = -1\n\t\t}\n\t}()\n\tdefer trace(71)\n\tr = s[n&3] + s[a&3]\n\ttrace(72)\n\treturn r\n}\n'),
     ('NestedUnwind', 'func NestedUnwind(a int, c1, c2, p1 bool, n int, s []int) (r int) {\n\tdefer trace(80)\n\tdefer func() {\n\t\tif e := recover(); e != nil {\n\t\t\ttrace(81)\n\t\t\tr = 82\n\t\t}\n\t}()\n\tr = inner(c1, p1, a)\n\ttrace(83)\n\tr += innerRecovers(c2, a)\n\treturn r\n}\n'),
     ('AlwaysDeferAfterPanicPoint', 'func AlwaysDeferAfterPanicPoint(a int, c1, c2, p1 bool, n int, s []int) (r int) {\n\tdefer func() {\n\t\tif e := recover(); e != nil {\n\t\t\ttrace(902)\n\t\t}\n\t}()\n\tdefer func() { trace(20) }()\n\tr += inner(false, p1, a)\n\tdefer func() { trace(60) }()\n\treturn r\n}\n'),
+    # a panic raised inside a deferred call while an earlier panic is still unrecovered
+    # replaces it: recover() returns the newest value
+    ('RepanicValue', 'func RepanicValue(a int, c1, c2, p1 bool, n int, s []int) (r int) {\n\tdefer func() {\n\t\tif e := recover(); e != nil {\n\t\t\ttrace(60)\n\t\t\tr = e.(int)\n\t\t}\n\t}()\n\tdefer func() {\n\t\ttrace(61)\n\t\tif c1 {\n\t\t\tpanic(a + 2)\n\t\t}\n\t}()\n\ttrace(62)\n\tpanic(a + 1)\n}\n'),
+    ('RepanicTriple', 'func RepanicTriple(a int, c1, c2, p1 bool, n int, s []int) (r int) {\n\tdefer func() {\n\t\te := recover()\n\t\ttrace(63)\n\t\tif v, ok := e.(int); ok {\n\t\t\tr = v\n\t\t}\n\t}()\n\tdefer func() { panic(a + 3) }()\n\tdefer func() {\n\t\tif c2 {\n\t\t\tpanic(a + 2)\n\t\t}\n\t}()\n\tif p1 {\n\t\tpanic(a + 1)\n\t}\n\treturn 5\n}\n'),
+    ('RecoverThenPanic', 'func RecoverThenPanic(a int, c1, c2, p1 bool, n int, s []int) (r int) {\n\tdefer func() {\n\t\tif e := recover(); e != nil {\n\t\t\tr = e.(int) * 10\n\t\t}\n\t}()\n\tdefer func() {\n\t\te := recover()\n\t\ttrace(64)\n\t\tif v, ok := e.(int); ok && c1 {\n\t\t\tpanic(v + 100)\n\t\t}\n\t}()\n\tpanic(a)\n}\n'),
     ('RecoverIndirect', 'func RecoverIndirect(a int, c1, c2, p1 bool, n int, s []int) (r int) {\n\tdefer func() {\n\t\ttrace(90 + helperRecover())\n\t}()\n\tif p1 {\n\t\tpanic(91)\n\t}\n\treturn a\n}\n'),
 ]
 
